@@ -226,6 +226,7 @@ class GraphMachine(MarkupMachine):
                 )
             setattr(mod, "get_graph", partial(self._get_graph, mod))
             _ = mod.get_graph(title=self.title, force_new=True)  # initialises graph
+            known.append(mod)
 
     def add_states(
         self, states, on_enter=None, on_exit=None, ignore_invalid_triggers=None, **kwargs
